@@ -174,6 +174,20 @@ pub fn run_schedule(rec: &mut Rec, seed: u64, run: u64, line: &str) {
         owner: None, pool_router: Some(p.f.hub.pool_router.to_string()), fee_distributor: None, pool_factory: None, vault_factory: None,
         take_rate: Some(Decimal::new(Uint128::new(rate))), take_rate_dao_address: Some(p.dao.to_string()), is_take_rate_active: Some(c["active"].as_bool().unwrap()) }, &[]);
     assert!(rs.is_ok(), "{}", rs.err());
+    // a third vault (over uatom), created through the factory from a code that refuses every message
+    let broken = c["broken"].as_bool().unwrap_or(false);
+    if broken {
+        use white_whale_std::vault_network::vault_factory::ExecuteMsg as VF;
+        let vf = p.f.hub.vault_factory.clone();
+        let cfg: white_whale_std::vault_network::vault_factory::Config = p.f.w.query(&vf, &white_whale_std::vault_network::vault_factory::QueryMsg::Config {}).unwrap();
+        let code = p.f.w.app.store_code(crate::hookrecv::broken_vault_contract());
+        let r1 = p.f.w.exec(&owner, &vf, &VF::UpdateConfig { owner: None, fee_collector_addr: None, vault_id: Some(code), token_id: None }, &[]);
+        assert!(r1.is_ok(), "{}", r1.err());
+        let r2 = p.f.w.exec(&owner, &vf, &VF::CreateVault { asset_info: p.f.atom.info(), fees: vault_fee(ONE / 1000, ONE / 1000, 0), token_factory_lp: false }, &[]);
+        assert!(r2.is_ok(), "{}", r2.err());
+        let r3 = p.f.w.exec(&owner, &vf, &VF::UpdateConfig { owner: None, fee_collector_addr: None, vault_id: Some(cfg.vault_id), token_id: None }, &[]);
+        assert!(r3.is_ok(), "{}", r3.err());
+    }
     rec.emit(json!({"ev": "reset", "suite": "pipeline", "run": run, "seed": seed.to_string(), "sched": v.clone(),
         "cfg": {"rate": s(rate), "active": c["active"].as_bool().unwrap()}, "obs": p.obs()}));
     let mut step = 0usize;
@@ -226,7 +240,7 @@ pub fn run_schedule(rec: &mut Rec, seed: u64, run: u64, line: &str) {
         let u = p.f.user.clone();
         let rs = p.f.w.exec(&u, &p.f.hub.distributor.clone(), &DistExec::NewEpoch {}, &[]);
         let dpost = p.f.w.digest();
-        rec.emit(json!({"ev": "newepoch", "run": run, "step": step, "actor": "user1", "args": {"round": round, "route": route}, "pre": {"expiring_available": s(expiring)},
+        rec.emit(json!({"ev": "newepoch", "run": run, "step": step, "actor": "user1", "args": {"round": round, "route": route, "broken": broken}, "pre": {"expiring_available": s(expiring)},
             "res": rs.tag(), "err": jerr(&rs.err()), "dpre": dpre, "dpost": dpost, "obs": p.obs()}));
         step += 1;
         if !rs.is_ok() { break; }
@@ -261,7 +275,7 @@ pub fn run_schedule(rec: &mut Rec, seed: u64, run: u64, line: &str) {
                 let dpre = p.f.w.digest();
                 let rs = p.f.w.exec(&u, &p.f.hub.distributor.clone(), &DistExec::NewEpoch {}, &[]);
                 let dpost = p.f.w.digest();
-                rec.emit(json!({"ev": "newepoch", "run": run, "step": step, "actor": "user1", "args": {"round": round, "route": route}, "pre": {"expiring_available": s(expiring)},
+                rec.emit(json!({"ev": "newepoch", "run": run, "step": step, "actor": "user1", "args": {"round": round, "route": route, "broken": broken}, "pre": {"expiring_available": s(expiring)},
                     "res": rs.tag(), "err": jerr(&rs.err()), "dpre": dpre, "dpost": dpost, "obs": p.obs()}));
                 step += 1;
             }
